@@ -119,7 +119,8 @@ def opVar (j : Json) : Except String Json := do
   | none => return Json.mkObj [("oom", Json.bool true)]
   | some (.error e) => return Json.mkObj [("err", Json.str (errName e))]
   | some (.ok t) =>
-    if isInfix ExtImpl.oomMarker t then return Json.mkObj [("oom", Json.bool true)]
+    -- the marker may have been cut by size= / changed by a later modifier: its first character (U+FFFF, never generated) decides
+    if isInfix ExtImpl.oomMarker t || t.contains (Char.ofNat 0xFFFF) then return Json.mkObj [("oom", Json.bool true)]
     else return Json.mkObj [("out", Json.str (String.ofList t)),
       ("applied", Json.arr ((VarPipe.applied sp).map Json.str).toArray),
       ("simple", Json.num (VarPipe.simpleKind sp))]
